@@ -9,13 +9,12 @@
     one elementary step keeps (sums that move in lock step, projections that do not move at all)
     then holds for the whole loop, without looking at the zippers again. *)
 From Coq Require Import ZArith List Bool Lia ZifyBool PArith.
-From PV Require Import Exchange.Arith Exchange.Split Exchange.Fulfill
+From PV Require Import Exchange.Arith Exchange.Split Exchange.Fulfill Exchange.SettleSpec
   Proofs.ArithProofs Proofs.SplitProofs Proofs.FulfillProofs.
 Import ListNotations.
 Open Scope Z_scope.
 
-(** ** Sums over lists *)
-Definition sumz {A} (g : A -> Z) (l : list A) : Z := fold_right (fun x acc => g x + acc) 0 l.
+(** ** Sums over lists ([sumz] is defined in Exchange/SettleSpec.v) *)
 
 Lemma sumz_cons {A} (g : A -> Z) x l : sumz g (x :: l) = g x + sumz g l.
 Proof. reflexivity. Qed.
